@@ -44,7 +44,9 @@ RULE = ("(a) histories of 0-8 dated entries (null values, 'expected' placeholder
         "only, whose boundaries are drawn from {an entry date, an entry date +-1, before the first, after the "
         "last, anywhere} and from the boundaries of earlier updates (so equal, adjacent, enclosing, enclosed, "
         "before-first and after-last all occur), plus ill-formed calls (period together with start, no start, "
-        "eternity, stop before start); queried at every entry date and update boundary +-1 day after every "
+        "eternity, stop before start) and ~6-8% of the calls made with a value of a type that is not allowed (str, "
+        "dict, object, tuple) - the caller catches the exception and the parameter / the tree is looked at again: a "
+        "refused call must have edited nothing; queried at every entry date and update boundary +-1 day after every "
         "step, each query date written in one of the accepted spellings of that day (ISO string, Instant, date, "
         "ISO week date 'YYYY-Www-D', day/month Period starting there, tuple, list, and 'YYYY-Www' / 'YYYY-MM' / "
         "'YYYY' / int when they denote that very day; converted with datetime only) rotating over positions and "
@@ -136,10 +138,12 @@ def cupd(u):
     e = copt(u["stop"], lambda x: cz(O(x)))
     v = cval(u["v"])
     if u["period"] is not None and (u["start"] is not None or u["stop"] is not None):
-        return f"(UMixed {cperiod(u['period'])} {s} {e} {v})"
-    if u["period"] is not None:
-        return f"(UPeriod {cperiod(u['period'])} {v})"
-    return f"(URange {s} {e} {v})"
+        call = f"(UMixed {cperiod(u['period'])} {s} {e} {v})"
+    elif u["period"] is not None:
+        call = f"(UPeriod {cperiod(u['period'])} {v})"
+    else:
+        call = f"(URange {s} {e} {v})"
+    return f"(UBad {call})" if u.get("bad") else call
 
 
 def ctree(t):
@@ -305,8 +309,13 @@ def view(x):
     return v4(x)
 
 
+def bad_value(tag):
+    """A value of a type that is not allowed for a parameter (config.ALLOWED_PARAM_TYPES)."""
+    return {"str": "12", "dict": {"value": 1}, "object": object(), "tuple": (1, 2)}[tag]
+
+
 def update_kwargs(u):
-    kw = {"value": u["v"]}
+    kw = {"value": bad_value(u["bad"]) if u.get("bad") else u["v"]}
     if u["period"] is not None:
         kw["period"] = mk_period(u["period"])
     if u["start"] is not None:
@@ -374,17 +383,12 @@ def run_impl(c):
         p = Parameter("p", param_data(c["entries"], c["wrapped"]))
         out = [snapshot(p, c["queries"], 0)]
         for i, u in enumerate(c["ups"]):
-            kw = {"value": u["v"]}
             try:
-                if u["period"] is not None:
-                    kw["period"] = mk_period(u["period"])
-                if u["start"] is not None:
-                    kw["start"] = mk_instant(u["start"])
-                if u["stop"] is not None:
-                    kw["stop"] = mk_instant(u["stop"])
-                p.update(**kw)
+                p.update(**update_kwargs(u))
             except Exception as e:  # noqa: BLE001 - a refused update is an observation
-                out.append(Err(errkind(e), f"{type(e).__name__}: {e}"[:200]))
+                err = Err(errkind(e), f"{type(e).__name__}: {e}"[:200])
+                # after a call with an ill-typed value the caller carries on: look at the parameter again
+                out.append([err, snapshot(p, c["queries"], i + 1)] if u.get("bad") else err)
                 continue
             out.append(snapshot(p, c["queries"], i + 1))
         return out
@@ -474,6 +478,17 @@ def oracle_param(c, o):
     ordered = True
     for n, (u, step) in enumerate(zip(c["ups"], o[1:])):
         kind = update_kind(u)
+        if u.get("bad"):
+            if not (isinstance(step, list) and len(step) == 2 and isinstance(step[0], Err)):
+                if not isinstance(step, Err):
+                    cur, ordered = step[1], False  # accepted a value of a type that is not allowed: nothing is claimed
+                continue
+            # refused: no edit was made, so every date still has the value it had
+            for j, (q, before, got) in enumerate(zip(c["queries"], cur, step[1][1])):
+                if got != before:
+                    return (f"refused: update {n} {u} was refused ({step[0].kind}: {step[0].msg[:80]}), yet the value "
+                            f"at {q} (asked as {spell(q, 2 * j + 5 * (n + 1))!r}) changed from {before} to {got} (x4)")
+            continue
         if kind in ("mixed", "nostart", "eternity"):
             if not isinstance(step, Err):
                 cur, ordered = step[1], False      # accepted an ill-formed call: nothing is claimed
@@ -577,10 +592,10 @@ def oracle_treeops(c, o):
         if op["o"] == "upd":
             u = op["u"]
             kind = update_kind(u)
-            if kind in ("mixed", "nostart", "eternity"):
+            if kind in ("mixed", "nostart", "eternity") or u.get("bad"):
                 if not isinstance(step, Err):
                     return None                    # accepted an ill-formed call: nothing is claimed from here on
-                continue
+                continue                           # refused: no edit, the later reads must be as before
             s, e = update_span(u)
             if e is not None and e < s:
                 return None                        # not a date range: nothing is claimed
@@ -653,7 +668,7 @@ def nontrivial(c, o):
     if isinstance(o, Err):
         return False
     if c["op"] == "param":
-        return any(not isinstance(s, Err) for s in o[1:])
+        return any(not isinstance(s, Err) and not (isinstance(s, list) and s and isinstance(s[0], Err)) for s in o[1:])
     if c["op"] == "treeops":
         reads = [s for s in o if isinstance(s, list)]
         return any(a != b for a, b in zip(reads, reads[1:]))
@@ -697,6 +712,8 @@ def classify(c, o):
         return "param:no-update"
     u = c["ups"][0]
     kind = update_kind(u)
+    if any(x.get("bad") for x in c["ups"]):
+        return "param:ill-typed-value"
     if kind in ("mixed", "nostart", "eternity"):
         return "param:" + kind
     dates = sorted(D(e["d"]) for e in c["entries"] if e["k"] in VALID_KINDS)
@@ -836,6 +853,13 @@ def gen_update(rng, dates, lo, hi, layout, ill):
     return {"period": p, "start": None, "stop": None, "v": v}
 
 
+def maybe_bad(rng, u, prob):
+    """With probability [prob], the call is made with a value of a type that is not allowed."""
+    if rng.random() < prob:
+        u["bad"] = rng.choice(["str", "str", "dict", "object", "tuple"])
+    return u
+
+
 def boundaries(u):
     """Ordinals at which the update may have put an entry."""
     kind = update_kind(u)
@@ -878,7 +902,7 @@ def gen_param_case(rng, malformed=False):
     ups = []
     for _ in range(rng.choice([1, 1, 2, 2, 3, 3, 4, 5, 6])):
         u = gen_update(rng, dates, lo - 3, hi + 3, layout, ill=(malformed or rng.random() < 0.04) and rng.random() < 0.5)
-        ups.append(u)
+        ups.append(maybe_bad(rng, u, 0.06))
         dates = dates + boundaries(u)
     points = set(dates) | {O(e["d"]) for e in entries if e["k"] in EXPECTED_KINDS}
     return {"op": "param", "wrapped": wrapped, "entries": entries, "ups": ups, "queries": queries_for(points, rng)}
@@ -1003,6 +1027,7 @@ def gen_treeops_case(rng):
                 u = gen_update(rng, dates, pool[0] - 3, pool[-1] + 4, "days", ill=False)
                 if path[-1][0] == "b" and u["v"] is not None and rng.random() < 0.7:
                     u["v"] = rng.choice([0, 0.25, 0.5, 1, 10, 50, 100])
+                maybe_bad(rng, u, 0.08)
             bs = boundaries(u)
             dates = sorted(set(dates) | set(bs))
             if bs:
@@ -1039,7 +1064,7 @@ def gen_long_param_case(rng):
     for _ in range(rng.choice([0, 1, 1, 2, 2, 3])):
         near = rng.sample(dates, min(len(dates), 6)) if rng.random() < 0.6 else dates   # short spans as well as long
         u = gen_update(rng, sorted(near), lo - 3, hi + 3, "days", ill=False)
-        ups.append(u)
+        ups.append(maybe_bad(rng, u, 0.08))
         ubounds += boundaries(u)
     sample = rng.sample(dates, min(len(dates), 35))
     points = set(sample) | set(ubounds) | {min(dates), max(dates)}
